@@ -1134,11 +1134,60 @@ class WildGen(StoreGen):
                                                    r.choice(["^(a+)(b*)", "(.)(.)(.)", "c$", "[a-z]+-([a-z]+)"])), {"has": ["match"]})
         return None
 
+    def operand_form_stmt(self, fr):
+        r = self.r
+        forms = {f[0]: f for f in OPERAND_FORMS}
+        for _ in range(6):
+            ty, fid = r.choice(self.accepted)
+            _, res, tmpl, has = forms[fid]
+            if tmpl is None or res == STMT and fid in ("error-argument", "synthetic-argument") or "f0(" in tmpl or "f1(" in tmpl:
+                continue
+            own = [k for k, t in fr["locals"].items() if t == ty]
+            if not own:
+                continue
+            a = r.choice(own)
+            b = r.choice(own)
+            sub = {}
+            ok = True
+            for ref, t in (("var.v2", "S"), ("var.v3", "B"), ("var.v4", "R"), ("var.v6", "T")):
+                if ref in tmpl or (ref == {"S": "var.v2", "B": "var.v3", "T": "var.v6"}.get(res)):
+                    ks = [k for k, tt in fr["locals"].items() if tt == t and k != a]
+                    if not ks:
+                        ok = False
+                        break
+                    sub[ref] = "var.v%d" % r.choice(ks)
+            if res == SAME:
+                ks = [k for k in own if k != a]
+                if not ks or ty == "A":
+                    ok = False
+                else:
+                    sub["var.v5"] = "var.v%d" % r.choice(ks)
+            if not ok:
+                continue
+            text = tmpl.format(a="\0A", b="\0B")
+            for ref, new in sub.items():
+                text = text.replace(ref, "\0" + ref)
+            for ref, new in sub.items():
+                text = text.replace("\0" + ref, new)
+            text = text.replace("\0A", "var.v%d" % a).replace("\0B", "var.v%d" % b)
+            if res == STMT:
+                tgt = sub.get("var.v2") if "var.v2" in tmpl else ("req.http.hb" if tmpl.startswith("add ") else
+                                                                 ("req.http.ha:k1" if tmpl.startswith("set req.http.ha:k1") else None))
+                stmt = text
+            else:
+                tgt = {"B": sub.get("var.v3"), "S": sub.get("var.v2"), "T": sub.get("var.v6"), SAME: sub.get("var.v5"), HDR: "req.http.hc"}.get(res)
+                if tgt is None:
+                    continue
+                stmt = "set %s = %s;" % (tgt, text)
+            self._c("dim:opform:%s:%s" % (TYN[ty], fid))
+            return ("rawstmt", stmt, {"target": tgt, "has": list(has)})
+        return None
+
     def wild_stmt(self, fr):
         r = self.r
         p = self.p
         kinds = ["intop", "floatop", "cross", "cross", "field", "field", "add", "url", "time", "ip", "rtimeop",
-                 "typed", "typed", "typedcall", "typedcall", "builtin", "builtin"]
+                 "typed", "typed", "typedcall", "typedcall", "builtin", "builtin", "opform", "opform", "opform"]
         if self.focus:
             kinds += ["typed", "typedcall"] * 6
         c = r.choice(kinds)
@@ -1149,6 +1198,12 @@ class WildGen(StoreGen):
         def st(text, target, has=()):
             self._c("wstmt:" + c)
             return ("rawstmt", text, {"target": target, "has": list(has)})
+        if c == "opform" and getattr(self, "accepted", None):
+            # a cell of the operand matrix (type x expression form, the ones the interpreter accepted in this run's
+            # exhaustive pass) inside a random program: operands that are parameters, re-declared, copied, in branches
+            w = self.operand_form_stmt(fr)
+            if w is not None:
+                return w
         if c == "builtin":
             # built-in functions WITH side effects, as statements: what they may write is read off the Go
             # source (Gen/StoreEffects.v); the check allows exactly the named header of the named object
@@ -1242,3 +1297,159 @@ class WildGen(StoreGen):
             if sv:
                 return st("set %s = %s;" % (nt(sv), nt(pv)), nt(sv))
         return None
+
+
+# ---------------------------------------------------------------------------------------------------------
+# The operand matrix: EVERY value type, as a local and as a ctx variable, under EVERY expression form that
+# takes an operand - one tiny program per cell, run exhaustively (not sampled) on every quick run.
+#   "evaluating an expression changes only what it names"  =>  its operands read the same afterwards.
+# The statement is executed twice (an operand that is shifted in place accumulates) and followed by another
+# statement, so that the store is read after the evaluation; the frame oracle (checks/c13.py) then sees
+# every local and every pooled name that changed although the line only READS it.
+# Which (type, form) cells the interpreter accepts is not transcribed: every cell is run, a cell whose
+# program does not parse or raises is listed as refused in the evidence.
+SAME, HDR, STMT = "same", "hdr", "stmt"
+OPERAND_FORMS = [
+    # id, kind of result (type letter | SAME | HDR | STMT), text with {a} {b} (operands), facts for the oracle
+    ("eq", "B", "({a} == {b})", ()), ("ne", "B", "({a} != {b})", ()),
+    ("lt", "B", "({a} < {b})", ()), ("gt", "B", "({a} > {b})", ()),
+    ("le", "B", "({a} <= {b})", ()), ("ge", "B", "({a} >= {b})", ()),
+    ("match", "B", '({a} ~ "a")', ("match",)), ("not-match", "B", '({a} !~ "a")', ("match",)),
+    ("match-acl", "B", "({a} ~ A_a)", ("match",)), ("ip-match-this-acl", "B", "(client.ip ~ {a})", ("match",)),
+    ("str-match-this-regex", "B", '("aab" ~ {a})', ("match",)),
+    ("and", "B", "({a} && {b})", ()), ("or", "B", "({a} || {b})", ()), ("not", "B", "(!{a})", ()),
+    ("neg", SAME, "-{a}", ()), ("pos", SAME, "+{a}", ()),
+    ("concat", "S", "{a} {b}", ()), ("concat-plus", "S", "{a} + {b}", ()),
+    ("concat-after-literal", "S", '"x" {a}', ()), ("concat-before-literal", "S", '{a} "x"', ()),
+    ("time-plus-literal", "S", "{a} + 5m", ()), ("time-minus-literal", "S", "{a} - 5m", ()),
+    ("time-plus-signed-literal", "S", "{a} +5m", ()), ("time-minus-signed-literal", "S", "{a} -5m", ()),
+    ("time-minus-inside-concat", "S", '"x" {a} -1h "y"', ()), ("time-plus-inside-concat", "S", '"x" + {a} + 1h + "y"', ()),
+    ("time-plus-in-comparison", "B", "({a} + 5m > {b})", ()), ("time-minus-in-comparison", "B", "({a} - 5m < {b})", ()),
+    ("time-plus-as-builtin-argument", "I", "std.strlen({a} + 5m)", ()), ("time-plus-to-header", HDR, "{a} + 5m", ()),
+    ("time-plus-in-condition", STMT, 'if ({a} + 5m == {b}) {{ set var.v2 = "y"; }}', ()),
+    ("time-plus-literal-to-TIME", "T", "{a} + 5m", ()), ("time-minus-literal-to-TIME", "T", "{a} - 1h", ()),
+    ("time-plus-rtime-variable", "T", "{a} + var.v4", ()), ("time-literal-plus-this", "T", "var.v6 + {a}", ()),
+    ("copy", SAME, "{a}", ()), ("to-string", "S", "{a}", ()), ("to-header", HDR, "{a}", ()),
+    ("if-expression-branch", SAME, "if(var.v3, {a}, {b})", ()),
+    ("if-expression-condition", "S", 'if({a} == {b}, "y", "n")', ()),
+    ("if-expression-bool-condition", "S", 'if({a}, "y", "n")', ()),
+    ("argument-of-procedure", STMT, "call f0({a});", ("call",)),
+    ("argument-of-function", SAME, "f1({a})", ("call",)),
+    ("argument-of-builtin", None, None, ()),         # per type, see OPERAND_BUILTINS
+    ("condition-of-if", STMT, 'if ({a} == {b}) {{ set var.v2 = "y"; }}', ()),
+    ("bool-condition-of-if", STMT, 'if ({a}) {{ set var.v2 = "y"; }}', ()),
+    ("condition-of-else-if", STMT, 'if (var.v3) {{ set var.v2 = "y"; }} else if ({a} != {b}) {{ set var.v2 = "z"; }}', ()),
+    ("log", STMT, "log {a};", ()),
+    ("switch-control", STMT, 'switch ({a}) {{ case "x": set var.v2 = "y"; break; default: set var.v2 = "d"; break; }}', ()),
+    ("compound-plus-rhs", SAME, None, ()), ("compound-minus-rhs", SAME, None, ()),
+    ("compound-and-rhs", SAME, None, ()), ("compound-or-rhs", SAME, None, ()),
+    ("rtime-onto-time-rhs", "T", None, ()),
+    ("error-argument", STMT, "error 700 {a};", ()),
+    ("synthetic-argument", STMT, "synthetic {a};", ()),
+    ("add-header", STMT, "add req.http.hb = {a};", ()),
+    ("sub-field-rhs", STMT, "set req.http.ha:k1 = {a};", ()),
+]
+OPERAND_BUILTINS = {
+    "I": ["std.itoa({a})", "std.itoa_charset({a}, \"01\")"], "F": ["math.floor({a})", "math.sqrt({a})"],
+    "S": ["std.strlen({a})", "std.toupper({a})", 'regsub({a}, "a", "b")', "std.atoi({a})"],
+    "B": [], "R": ["time.add(var.v6, {a})", "time.sub(var.v6, {a})"],
+    "T": ['strftime({{"%Y"}}, {a})', "time.add({a}, 5m)", "time.sub({a}, 5m)", "time.is_after({a}, {b})",
+          "time.add({a}, var.v4)"],
+    "P": ["std.ip2str({a})", "addr.is_ipv4({a})", "addr.extract_bits({a}, 0, 8)"],
+    "K": [], "A": [], "X": [],
+}
+# ctx variables used as operands, by type: from the regenerated table where it has them (plain cells), and the
+# well-known computed ones for the types no context field of a simple case has
+OPERAND_CTX_FIXED = {"T": ["time.start"], "P": ["client.ip", "server.ip"], "K": ["req.backend"]}
+OPERAND_INIT = {"I": ("7", "9"), "F": ("1.500", "2.250"), "S": ('"aab"', '"x"'), "B": ("true", "false"), "R": ("3s", "2m"),
+                "T": ("time.start", "time.start"), "P": ('"10.0.0.1"', '"192.168.7.7"'), "K": ("F_a", "F_b"),
+                "A": (None, None), "X": ('table.lookup_regex(rt, "a")', 'table.lookup_regex(rt, "b")')}
+
+
+def operand_ctx_names(scope):
+    out = {t: list(v) for t, v in OPERAND_CTX_FIXED.items()}
+    for n, t in (WRITABLE or {}).get(scope, []):
+        out.setdefault(t, [])
+        if len(out[t]) < 2:
+            out[t].append(n)
+    return out
+
+
+def operand_matrix():
+    """[(Prog, (type, source, form id, text))]: the full cross product, deterministic."""
+    out = []
+    for ty in "IFSBRTPKAX":
+        sources = [("local", "var.v0", "var.v1")]
+        for scope in ("recv", "fetch"):
+            for n in operand_ctx_names(scope).get(ty, []):
+                if scope == "recv" or not any(s[1] == n for s in sources):
+                    sources.append(("ctx:" + scope, n, n))
+        for src, a, b in sources:
+            scope = src.split(":")[1] if ":" in src else "recv"
+            for fid, res, tmpl, has in OPERAND_FORMS:
+                texts = []
+                if fid == "argument-of-builtin":
+                    for t in OPERAND_BUILTINS[ty]:
+                        rt = "B" if t.startswith(("time.is_after", "addr.is_")) else ("I" if t.startswith(("std.strlen", "std.atoi", "addr.extract")) else
+                                                                                         ("T" if t.startswith("time.") else ("F" if t.startswith("math.") else "S")))
+                        texts.append((rt, t, has))
+                elif tmpl is None:
+                    op = {"compound-plus-rhs": "+=", "compound-minus-rhs": "-=", "compound-and-rhs": "&&=", "compound-or-rhs": "||=",
+                          "rtime-onto-time-rhs": "+="}[fid]
+                    texts.append(("T" if fid == "rtime-onto-time-rhs" else SAME, (op, "{a}"), has))
+                else:
+                    texts.append((res, tmpl, has))
+                for res_k, tm, hs in texts:
+                    p = Prog()
+                    p.wild = True
+                    p.scope = scope
+                    p.globals = list(HIDDEN)
+                    p.hidden = list(HIDDEN)
+                    p.gs, p.gr = 0, 1
+                    p.objs = list(SCOPES[scope]["objs"])
+                    p.extra_pool = ["@fastly.error", "req.restarts"] + ([a] if src != "local" else [])
+                    tys = {0: ty, 1: ty, 2: "S", 3: "B", 4: "R", 5: ty, 6: "T"}
+                    p.local_ty = dict(tys)
+                    body = [("decl", k, t, None) for k, t in sorted(tys.items())]
+                    ia, ib = OPERAND_INIT[ty]
+
+                    def raw(text, target, has=()):
+                        return ("rawstmt", text, {"target": target, "has": list(has)})
+                    if ia is not None:
+                        body += [raw("set var.v0 = %s;" % ia, "var.v0"), raw("set var.v1 = %s;" % ib, "var.v1"),
+                                 raw("set var.v5 = %s;" % ib, "var.v5")]
+                    body += [raw('set var.v2 = "s";', "var.v2"), raw("set var.v3 = true;", "var.v3"), raw("set var.v4 = 3s;", "var.v4"),
+                             raw("set var.v6 = time.start;", "var.v6")]
+                    if isinstance(tm, tuple):
+                        op, e = tm
+                        tgt = "var.v6" if res_k == "T" else "var.v5"
+                        stmt = raw("set %s %s %s;" % (tgt, op, e.format(a=a, b=b)), tgt, hs)
+                        shown = "set %s %s %s;" % (tgt, op, e)
+                    elif res_k == STMT:
+                        text = tm.format(a=a, b=b)
+                        tgt = "var.v2" if "var.v2" in text else ("req.http.hb" if text.startswith("add ") else
+                                                                  ("req.http.ha:k1" if text.startswith("set req.http.ha:k1") else None))
+                        stmt = raw(text, tgt, hs)
+                        shown = tm.replace("{{", "{").replace("}}", "}")
+                    else:
+                        tgt = {"B": "var.v3", "S": "var.v2", "T": "var.v6", "I": "var.v7", "F": "var.v8", SAME: "var.v5", HDR: "req.http.hc"}[res_k]
+                        if tgt in ("var.v7", "var.v8"):
+                            k = int(tgt[5:])
+                            tys[k] = "I" if k == 7 else "F"
+                            p.local_ty[k] = tys[k]
+                            body.insert(0, ("decl", k, tys[k], None))
+                        stmt = raw("set %s = %s;" % (tgt, tm.format(a=a, b=b)), tgt, hs)
+                        shown = "set %s = %s;" % (tgt, tm.replace("{{", "{").replace("}}", "}"))
+                    if "f0(" in stmt[1]:
+                        p.subs.append((0, [(90, ty)], None, [("decl", 91, "S", None), raw('set var.v91 = "in";', "var.v91")]))
+                        p.local_ty.update({90: ty, 91: "S"})
+                    if "f1(" in stmt[1]:
+                        p.subs.append((1, [(92, ty)], ty, [("ret", ("var", ("l", 92)))]))
+                        p.local_ty[92] = ty
+                    # twice (an operand shifted in place accumulates), then one more statement: the store is read
+                    # after the evaluation, from the same frame
+                    body += [stmt, stmt, raw('set var.v2 = "end";', "var.v2")]
+                    p.main = body
+                    p.cell = (ty, src, fid, shown)
+                    out.append(p)
+    return out
